@@ -81,6 +81,29 @@ def run(ctx, rep, corpus):
             else:
                 rep.traces += 1
     rep.count('multiprocess_layout_scenarios', len(FIXED_SCENARIOS) + ctx.n(40, 400))
+    if ctx.model is not None:
+        # kernel guard on extraction: the same calls evaluated by vm_compute on the Gallina go_string itself
+        import random
+        from .incoq import kernel_guard, coq_str, coq_bool
+        rr = random.Random(ctx.seed)
+        pool = [bits(x) for x in (0.0, -0.0, math.inf, -math.inf, math.nan, 1e6, 999999.9999999999, 1e16, 9999999999999998.0,
+                                  1.5e10, 1e21, 1e22, 1e100, 1e308, 5e-324, 123456789.125, -1e7, 2.0 ** 64, 1e-7)]
+        pool += [bits(float('1e%d' % e)) + k for e in range(-20, 40) for k in (-1, 0, 1)]
+        pool += [bits(rr.randrange(10 ** 6, 10 ** 17) / rr.choice((1, 2, 4, 8, 10))) for _ in range(ctx.n(150, 1500))]
+        pool += [rr.getrandbits(64) for _ in range(ctx.n(100, 1000))]
+        sample = []
+        for b in pool:
+            d = frombits(b)
+            if d == math.inf:
+                arg = 'FPosInf'
+            elif d == -math.inf:
+                arg = 'FNegInf'
+            elif math.isnan(d):
+                arg = 'FNaN'
+            else:
+                arg = '(FFin %s %s)' % (coq_bool(d > 0), coq_str(repr(d)))
+            sample.append((arg, model(ctx.model, b)))
+        kernel_guard(rep, 'go_string', ['lib.PyBase', 'model.Utils'], 'go_string', sample)
     generic_loop(sys.modules[__name__], ctx, rep, corpus)
     generic_loop(sys.modules[__name__], ctx, rep, cases(ctx))
 
